@@ -53,7 +53,7 @@ def r1_hash_free(cx):
     aps = [x for x in find_calls(cc.body, attr="append") if U(x.func.value) == "parsers"]
     red = [x for x in aps if "self.redact['pattern']" in U(x)]
     alw = [x for x in aps if "allow_filter" in U(x)]
-    obf = [x for x in aps if "self.obfuscate[" in U(x)]
+    obf = [x for x in aps if "self.obfuscate[" in U(x) or any(isinstance(a, ast.For) and "self.obfuscate" in U(a.iter) for a in ancestors(x))]
     ok = bool(red) and bool(alw) and bool(obf) and lexically_before(red[0], alw[0]) and lexically_before(alw[0], obf[0])
     cx.require(ok, cc, "stage order is fixed by program order: redaction, allow-list filter, then the obfuscators", construct="parsers.append order: redact < allow_filter < obfuscators")
     pd = [a for a in cc.body if isinstance(a, ast.Assign) and U(a.targets[0]) == "parsers"]
